@@ -583,6 +583,11 @@ fn run_real_once(text: &str) -> (Outcome, f64) {
         let mut f = ast::File::new(lang());
         #[allow(deprecated)]
         let r = f.parse(text);
+        // a parse error is also RENDERED, plain and pretty (C05: rendering any error returns text)
+        if let Err(e) = &r {
+            let _ = format!("{}", e);
+            let _ = format!("{}", e.display_pretty(std::path::Path::new("rules.tsg"), text));
+        }
         (r, f)
     }));
     let secs = t0.elapsed().as_secs_f64();
@@ -1261,6 +1266,11 @@ fn specials() -> Vec<(String, String)> {
     let mut v: Vec<(String, String)> = vec![];
     let mut add = |k: &str, t: String| v.push((k.to_string(), t));
     add("empty", String::new());
+    // CRLF texts that stop right after a sigil / keyword at the end of a line: the parser takes the `\r` into the
+    // token it is reading, so the error location lies beyond the line that `str::lines` cuts out for the excerpt
+    for t in ["(module) @m {\r\n  node @\r\n}\r\n", "inherit .\r\n(module) @m { }\r\n", "(module) @m {\r\n  attr (n) a = #\r\n}\r\n", "(module) @m {\r\n  let x = $\r\n}\r\n",
+              "global\r\n", "(module) @m {\r\n  edge a ->\r\n}\r\n", "(module) @m {\r\n  print \"abc\r\n}\r\n", "attribute a = x =>\r\n", "(module) @m {\r\n  scan x {\r\n    \"(\" {\r\n    }\r\n  }\r\n}\r\n",
+              "(module) @m {\r\n  node n\r\n  attr (n) k = @\r", "(module) @\r\n{ }"] { add("crlf-dangling", t.to_string()); }
     for t in [" \n\t\r\n", "\u{a0}\u{2028} ", "\n", "\u{b}\u{c}"] { add("ws-only", t.to_string()); }
     for t in ["; c", "; c\n", ";\n;;\n ; é {", ";", ";\n", "; (module) @m { }", " ; a\r; b\n"] { add("comment-only", t.to_string()); }
     for sfx in ["", " ", "\n", "\t", "\r", ";", "; c\n", "?", "*", "+", "??", "=", "= \"d\"", "(", "\"", "\u{a0}", "\u{2028}", "é", "\0", "0", "-", "_", "?=\"d\"",
@@ -1398,6 +1408,12 @@ pub fn gen_malformed(rng: &mut Rng, n: usize) -> Vec<Case> {
             text = layout_tokens(rng, &toks, lay).0;
         }
         for _ in k_tok..k { let (t, kind) = mutate_chars(rng, &text); text = t; tags.push(format!("mut:{}", kind)); }
+        // CRLF line ends (the `\r` is whitespace for the parser but is stripped by `str::lines` when an error excerpt
+        // is cut out), and a text truncated right after a sigil at the end of a line
+        if rng.chance(20) { text = text.replace('\n', "\r\n"); tags.push("layout:crlf".into());
+            if rng.chance(60) { let lines: Vec<&str> = text.split("\r\n").collect(); if lines.len() > 2 { let at = 1 + rng.below(lines.len() - 1);
+                let sig = *rng.pick(&["@", "#", ".", "$", "\""]); let mut v: Vec<String> = lines.iter().map(|l| l.to_string()).collect(); v[at] = format!("{} {}", v[at].trim_end(), sig);
+                text = v.join("\r\n"); tags.push("mut:dangling-sigil-before-crlf".into()); } } }
         if text.chars().count() > MAX_TEXT { continue; }
         tags.push(format!("mutations={}", k));
         out.push(make_case("C05p", &text, None, tags, "mutated valid text"));
